@@ -257,6 +257,22 @@ func linHistories(ps *propSink, count int, seed int64) string {
 				}
 			}
 		}
+		// a set is a set however it came about: half of the sets are not what the constructor returned but
+		// what an earlier operation handed back (a clone, a union with nothing, …) — same members
+		for s := 0; s < 2; s++ {
+			switch rng.Intn(10) {
+			case 0, 1:
+				sets[s] = sets[s].Clone()
+			case 2:
+				sets[s] = sets[s].Union(mapset.NewSet())
+			case 3:
+				sets[s] = sets[s].Intersect(sets[s].Clone())
+			case 4:
+				sets[s] = sets[s].Difference(mapset.NewSet())
+			case 5:
+				sets[s] = sets[s].SymmetricDifference(mapset.NewSet())
+			}
+		}
 		ng := 2 + rng.Intn(3)
 		progs := make([][]linOp, ng)
 		// contention helps: most operations of one history use the same value and the same set
